@@ -108,6 +108,8 @@ func main() {
 				fmt.Println(k)
 			}
 		}
+	case "sweep":
+		cmdSweep(os.Args[2:])
 	case "maploops":
 		p, err := loadAll()
 		if err != nil {
